@@ -26,6 +26,7 @@ EXPLANATION = (
     "equation with value=...; _redefine rejects unknown, prefixed and base units and dimension changes before define. "
     "Does not evaluate any rule equation or decide numeric results.")
 EXPLANATION += ' Also decided (rules added after the second round of seeded changes): the parameterised copy made by Context.from_context carries every field __init__ creates (except the triaged per-object `checked` flag); a stored overlay is never reused without rebuild.'
+EXPLANATION += " Also decided (round 5): rules are re-keyed to base dimensions before the per-activation copies are made (CFG ordering); the with_context decorator hands its OWN name and keyword parameters to self.context (decided by scope: free in the wrapper, not shadowed by a wrapper parameter) and forwards the wrapper's own arguments to the function; every inserted context contributes exactly one map."
 
 
 
